@@ -439,7 +439,66 @@ pub fn check_snippet_from_doc(values: &[String], other_first: bool) -> Option<Vi
     }
 }
 
+/// SnippetGenerator::create on a real index with two text fields: for every query made of one or two term
+/// clauses over (field, word), every field and every document, each highlighted range of the field's snippet
+/// covers a word that the query asks for *in that field* (a term aimed at the other field is not a query term
+/// of this one), and the fragment is part of the field's text.
+pub fn check_snippet_create(clauses: &[(usize, String)]) -> Option<Violation> {
+    use tantivy::query::{BooleanQuery, Occur, Query, TermQuery};
+    use tantivy::schema::{IndexRecordOption, Schema, Value as _, STORED, TEXT};
+    let case = json!({"kind":"snippet_create","clauses":clauses});
+    let r = catch_unwind(AssertUnwindSafe(|| -> Result<(), (String, String)> {
+        let mut sb = Schema::builder();
+        let title = sb.add_text_field("title", TEXT | STORED);
+        let body = sb.add_text_field("body", TEXT | STORED);
+        let index = tantivy::Index::create_in_ram(sb.build());
+        let mut w: tantivy::IndexWriter = index.writer_with_num_threads(1, 15_000_000).unwrap();
+        for (t, b) in [("a B", "b a c"), ("c", "a"), ("b b", "C c a")] {
+            let mut d = tantivy::TantivyDocument::default();
+            d.add_text(title, t);
+            d.add_text(body, b);
+            w.add_document(d).unwrap();
+        }
+        w.commit().unwrap();
+        let searcher = index.reader().unwrap().searcher();
+        let fields = [title, body];
+        let q = BooleanQuery::new(clauses.iter().map(|(f, wd)| (Occur::Should, Box::new(TermQuery::new(tantivy::Term::from_field_text(fields[*f], wd), IndexRecordOption::Basic)) as Box<dyn Query>)).collect());
+        for (fi, field) in fields.iter().enumerate() {
+            let asked: Vec<&str> = clauses.iter().filter(|c| c.0 == fi).map(|c| c.1.as_str()).collect();
+            let gen = SnippetGenerator::create(&searcher, &q, *field).map_err(|e| ("snippet_create_error".to_string(), format!("{e:?}")))?;
+            for doc_id in 0..3u32 {
+                let doc: tantivy::TantivyDocument = searcher.doc(tantivy::DocAddress::new(0, doc_id)).map_err(|e| ("machinery".to_string(), format!("{e:?}")))?;
+                let text: String = doc.get_first(*field).and_then(|v| v.as_str()).unwrap_or("").to_string();
+                let sn = gen.snippet_from_doc(&doc);
+                let fragment = sn.fragment();
+                if !text.contains(fragment) {
+                    return Err(("snippet_fragment_not_substring".into(), format!("field {fi} doc {doc_id}: fragment {fragment:?} is not part of {text:?}")));
+                }
+                for r in sn.highlighted() {
+                    if !(r.start <= r.end && r.end <= fragment.len()) || !fragment.is_char_boundary(r.start) || !fragment.is_char_boundary(r.end) {
+                        return Err(("snippet_highlight_outside_fragment_or_boundary".into(), format!("field {fi} doc {doc_id}: fragment {fragment:?} highlight {r:?}")));
+                    }
+                    let word = fragment[r.clone()].to_lowercase();
+                    if !asked.contains(&word.as_str()) {
+                        return Err(("snippet_highlight_not_a_query_term".into(), format!("field {} of document {doc_id} ({text:?}): {word:?} is highlighted, but the query asks this field for {asked:?} only", ["title", "body"][fi])));
+                    }
+                }
+            }
+        }
+        Ok(())
+    }));
+    match r {
+        Err(e) => Some(Violation::new("snippet_panic", format!("SnippetGenerator::create / snippet_from_doc for clauses {clauses:?} panicked: {}", panic_message(e)), case)),
+        Ok(Err((rule, what))) => Some(Violation::new(&rule, format!("query clauses (field, word) {clauses:?}: {what}"), case)),
+        Ok(Ok(())) => None,
+    }
+}
+
 pub fn replay(case: &Value) -> Vec<Violation> {
+    if case["kind"] == "snippet_create" {
+        let clauses: Vec<(usize, String)> = serde_json::from_value(case["clauses"].clone()).unwrap_or_default();
+        return check_snippet_create(&clauses).into_iter().collect();
+    }
     if case["kind"] == "snippet_doc" {
         let values: Vec<String> = serde_json::from_value(case["values"].clone()).unwrap_or_default();
         return check_snippet_from_doc(&values, case["other_first"].as_bool().unwrap_or(false)).into_iter().collect();
@@ -601,6 +660,27 @@ pub fn run(ctx: &Ctx) -> Report {
         }
     }
 
+    // ---- family E: SnippetGenerator::create over a two-field index, every query of one or two term clauses
+    {
+        let atoms: Vec<(usize, String)> = (0..2usize).flat_map(|f| ["a", "b", "c", "zz"].iter().map(move |w| (f, w.to_string()))).collect();
+        let mut queries: Vec<Vec<(usize, String)>> = atoms.iter().map(|a| vec![a.clone()]).collect();
+        for i in 0..atoms.len() {
+            for j in 0..atoms.len() {
+                if i != j {
+                    queries.push(vec![atoms[i].clone(), atoms[j].clone()]);
+                }
+            }
+        }
+        for q in &queries {
+            st.eval();
+            st.count("snippet_create_cases");
+            st.nontrivial(&("snippet_create", q));
+            if let Some(v) = check_snippet_create(q) {
+                st.violation(v);
+            }
+        }
+    }
+
     // ---- designated long texts
     let long_texts: Vec<String> = vec![
         "\u{e9}".repeat(500_000),
@@ -687,7 +767,7 @@ pub fn run(ctx: &Ctx) -> Report {
         "rule",
         "every text of length <= L over the 17-symbol alphabet (snippets: +3 html symbols) x every tokenizer x every filter chain of length <= 2 \
          (chains of length 2 at L-1); snippets: x 6 term sets x 6 max_num_chars x 8 analyzers. Non-trivial: text of >= 2 symbols (tokens) / text containing a query term (snippets); \
-         distinct by (analyzer, text[, terms, max]).",
+         distinct by (analyzer, text[, terms, max]). SnippetGenerator::create over a two-field index: every query of one or two term clauses over (field, word in {a,b,c,absent}) x both fields x 3 documents - highlights only cover words the query asks that field for.",
     );
     rep.set("states", st.nontrivial.len() as u64);
     rep.set("transitions", st.evaluations);
